@@ -1119,7 +1119,7 @@ def _put_slice_stmtlike_old(
         put_fst = None
         put_fst_end_nl = False
         is_handlers = field == 'handlers'
-        star = None
+        star = None if getattr(ast, 'finalbody', None) else ast_cls is TryStar  # without a `finally:` deleting all handlers does not leave valid source either way, node stays as it is same as for cut
 
     else:
         if is_handlers := (field == 'handlers'):
